@@ -76,6 +76,14 @@ func c14(c *an.Ctx) {
 	c.Check("R-BOOL", "batch field adapter: a missing or nil batch result is an error exactly for non-nullable fields, a present one is delivered for its own source (decision tables shared with C01)", 6, func(o *an.O) {
 		ruleBatchAdapterTables(c, o)
 	})
+	c.Check("R-PAIR", "object fields exactly as selected, for union values: a member is resolved with the union-level selections (__typename) and every applicable fragment (rule shared with C01 and C19)", 2, func(o *an.O) {
+		ruleUnionMemberSelection(c, o)
+	})
+
+	c.Check("R-SIBLING", "a validated query cannot reach the same-alias merge with selections of different fields (rule shared with C15)", 8, func(o *an.O) {
+		ruleSameAliasAgreement(c, o)
+	})
+
 	c.Check("R-KEY", "object fields exactly as selected: a memoised sub-result of an expensive field is keyed by field, source and the selection itself", 1, func(o *an.O) { ruleWorkCacheKey(c, o) })
 	outputKinds := []string{"Enum", "List", "NonNull", "Object", "Scalar", "Union"}
 
